@@ -126,7 +126,7 @@ class C06(Prop):
             'derivation after the documented conventions (single-child collapse, suite INDENT/DEDENT dropped, args lists dissolved / '
             'param flattened, lambdef_nocond->lambdef), leaf types and values included; recovering parse identical, no error nodes. '
             'Non-trivial: derivation uses >=3 rules beyond file_input/stmt/simple_stmt; distinct by token-type sequence + text.')
-    budgets = {'quick': 24000, 'thorough': 600000}
+    budgets = {'quick': 24000, 'thorough': 2400000}
     shrink_fields = ('choices', 'layout')
     min_nontrivial_fraction = 0.2
 
